@@ -124,7 +124,7 @@ def run(ctx):
         r.check('drain_into_new_buf:moves-everything', len(rows) == 1 and rows[0].effects[-1] == 'std::vec::Vec::append(serialize::OutputBuffer(std::vec::Vec::with_capacity(%slen(self))).0, self.0)' % OB,
                 ctx.site(OB + 'drain_into_new_buf'), built=[x.effects for x in rows])
         rows = P.table(ctx, OB + 'drain_written', ['self', 'n'])
-        r.check('drain_written:prefix', len(rows) == 1 and rows[0].effects == ['std::vec::Vec::drain(self.0, std::ops::Range{end: n, start: 0})'], ctx.site(OB + 'drain_written'), built=[x.effects for x in rows],
+        r.check('drain_written:prefix', len(rows) == 1 and rows[0].effects == ['std::vec::Vec::drain(self.0, std::ops::RangeTo{end: n})'], ctx.site(OB + 'drain_written'), built=[x.effects for x in rows],
                 expected='self.0.drain(0..n)')
         rows = P.table(ctx, OB + 'append', ['self', 'other'])
         r.check('append:whole-buffer', len(rows) == 1 and rows[0].effects == ['std::vec::Vec::append(self.0, other.0)'], ctx.site(OB + 'append'), built=[x.effects for x in rows])
@@ -136,12 +136,12 @@ def run(ctx):
         site = ctx.site('serialize::serialize')
         CALL = 'value:f(buf, std::vec::Vec::len(buf))'
         ok = [x for x in rows if x.conds == [(CALL, 'Ok(_)')]]
-        small = [x for x in rows if x.conds == [(CALL, 'Err(cookie_factory::GenError::BufferTooSmall(_))')]]
-        other = [x for x in rows if x.conds == [(CALL, 'Err(_)')]]
+        small = [x for x in rows if x.conds == [(CALL, 'Err(_)'), (CALL + '.Err.0', 'cookie_factory::GenError::BufferTooSmall(_)')]]
+        other = [x for x in rows if x.conds == [(CALL, 'Err(_)'), (CALL + '.Err.0', 'not cookie_factory::GenError::BufferTooSmall(_)')]]
         if r.check('rows', len(ok) == 1 and len(small) == 1 and len(other) == 1, site, built=[x.cond_strs() for x in rows],
                    expected='pos = buf.len() (before the loop); loop { match f(buf, pos) {Ok, Err(BufferTooSmall(n)), Err(_)} }'):
             r.check('position-before-loop', all(x.effects[:2] == ['std::vec::Vec::len(buf)', 'loop {'] for x in rows), site, built=ok[0].effects[:2], why='every attempt writes at the old end of the buffer')
-            r.check('success-returns', ok[0].done == 'return' and not [e for e in ok[0].effects if 'resize' in e or 'truncate' in e], site, built=ok[0].effects)
+            r.check('success-returns', ok[0].done in ('return', None) and not [e for e in ok[0].effects if e == '} next-iteration'] and not [e for e in ok[0].effects if 'resize' in e or 'truncate' in e], site, built=ok[0].effects)
             r.check('too-small-resizes-exactly', small[0].effects[-2:] == ['std::vec::Vec::resize(buf, %s.Err.0.BufferTooSmall.0, 0)' % CALL, '} next-iteration'], site, built=small[0].effects[-2:],
                     expected='buf.resize(n, 0) with the n the generator asked for; retry', why='a different size leaves garbage bytes behind the frame or truncates it')
             r.check('other-errors-unreachable', other[0].done == 'panic', site)
@@ -185,7 +185,7 @@ def run(ctx):
         table = ((SOB + 'len', ['self'], ['std::vec::Vec::len(%s)' % VEC], [], 'bytes still to write'),
                  (SOB + 'is_empty', ['self'], ['std::vec::Vec::is_empty(%s)' % VEC, '(std::vec::Vec::len(%s) == 0)' % VEC], [], 'has_data_to_write'),
                  (SOB + 'clear', ['self'], ['std::vec::Vec::clear(%s)' % VEC, '()'], ['std::vec::Vec::clear(%s)' % VEC], 'everything was written'),
-                 (SOB + 'drain_written', ['self', 'n'], ['()', 'std::vec::Vec::drain(%s, std::ops::Range{end: n, start: 0})' % VEC], ['std::vec::Vec::drain(%s, std::ops::Range{end: n, start: 0})' % VEC],
+                 (SOB + 'drain_written', ['self', 'n'], ['()', 'std::vec::Vec::drain(%s, std::ops::RangeTo{end: n})' % VEC], ['std::vec::Vec::drain(%s, std::ops::RangeTo{end: n})' % VEC],
                   'exactly the written prefix leaves the buffer, sealed or not'),
                  (IDX, ['self', 'index'], ['self.buf[index]', 'self.buf.0[index]'], [], 'the unsent suffix'),
                  (IDX0, ['self', 'index'], ['self.0[index]'], [], 'the unsent suffix'))
